@@ -148,3 +148,25 @@ CHECKS["C16"] = {
         J("histories", VSTORE, "TestC16Histories", {"shards": 6, "checks": 100}, {"shards": 16, "checks": 2000}),
     ],
 }
+
+CHECKS["C07"] = {
+    "level": "exploration",
+    "engine": "E3 agent in-package",
+    "level_text": "Generated token populations (user names incl. ':' and empty, both admin flags, two factory instances, lifetimes 1 s .. 1 h) under a virtual clock; for every issued token: "
+                  "all single-bit flips of nonce||ciphertext for one token per run plus sampled ones for the others, single-character text mutations, all truncation points, "
+                  "nonce/ciphertext/tag splices between all token pairs, cross-instance presentation, sealed plaintexts on both sides of the window and grammar, ageing through the lifetime boundary.",
+    "level_note": "Trusted: Go's crypto/aes+cipher (GCM), testing/synctest's virtual clock. Testing cannot establish cryptographic unforgeability; it establishes that AES-GCM is wired so that every "
+                  "generated non-issued content is refused, and that the window/identity/nonce clauses hold on everything generated.",
+    "technique": "property-based testing (rapid) with mutation/splice generators under a virtual clock (testing/synctest); invariant oracle over the set of issued tokens",
+    "oracle": "accepted => decoded (nonce, ciphertext) equals that of a token issued by this factory no longer ago than the lifetime (+1 s granularity band) and the returned identity is exact; "
+              "fresh tokens accepted; sealed future/over-age/lenient-grammar plaintexts rejected; nonces pairwise distinct",
+    "rule": "a case = one token population and its mutants (hundreds of presented strings). Non-trivial = a presented string that decodes to a 12-byte nonce and >=16-byte ciphertext "
+            "(reaches the AEAD) but was not issued, a splice, a sealed plaintext, or an age probe; distinct = distinct (mutation kind, region nonce/ct/tag, bit, age bucket, plaintext class)",
+    "assumptions": ["the base64 text layer (characters ignored by the stdlib decoder) is outside the claim, as the property states",
+                    "tokens store whole seconds: between lifetime-1s and lifetime+1s either answer is accepted"],
+    "required_classes": {"all": ["age:expired", "age:young", "age:edge"]},
+    "jobs": [
+        J("tokens", AGENT, "TestC07Tokens", {"shards": 6, "checks": 60}, {"shards": 16, "checks": 1500}, toolchain="go126"),
+        J("nonces", AGENT, "TestC07NonceDistinct", {"shards": 1, "n": 20000}, {"shards": 4, "n": 1000000}, toolchain="go126", rapid=False),
+    ],
+}
